@@ -80,7 +80,8 @@ type Sim struct {
 	TotalSteps uint64
 	Switches   uint64
 
-	rng *RNG
+	rng   *RNG
+	seed0 uint64
 
 	replaying bool
 	replay    []Ev
@@ -122,7 +123,7 @@ var S *Sim
 
 // NewSim creates a simulation whose scheduling decisions come from seed.
 func NewSim(seed uint64) *Sim {
-	s := &Sim{rng: NewRNG(seed), MaxDepth: 400, MaxSteps: 2000000, h: sha256.New(), Sites: map[int32]*SiteStat{}}
+	s := &Sim{rng: NewRNG(seed), seed0: seed, MaxDepth: 400, MaxSteps: 2000000, h: sha256.New(), Sites: map[int32]*SiteStat{}}
 	s.main = &Thread{ID: 0}
 	s.cur = s.main
 	s.AdvNth = int(Mix(seed, 7, "adv") % 16)
@@ -147,6 +148,21 @@ func (s *Sim) ReplayLeftover() int {
 		return 0
 	}
 	return len(s.replay) - s.rpos
+}
+
+// Reseed re-derives the schedule PRNG from the run's seed and a key. Histories
+// that are compared with a twin (the same operations with some removed) reseed
+// at every operation with the operation's stable id, so that an operation sees
+// the same stream of iteration orders in both histories. No effect on replay.
+func (s *Sim) Reseed(key uint64) {
+	if s.replaying {
+		return
+	}
+	s.rng = NewRNG(Mix(s.seed0, key, "op"))
+	if s.AdvPick {
+		s.seenSite = map[int32]bool{}
+		s.AdvSite = 0
+	}
 }
 
 // CurThreadID is the id of the simulated thread that is running.
